@@ -954,7 +954,42 @@ pub fn judge(s: &Scn, method: &str, o: &Obs) -> Vec<Value> {
     }
     // C07: faulty streams must not produce a clean end unless every call delivered its range
     // (covered by the announced-length accounting above for single bodies; for multipart the
-    // per-part accounting in judge_multipart).
+    // per-part accounting in judge_multipart). An entity stream that offers MORE than its range
+    // must surface as an error to a consumer that polls past the announced length -- decided
+    // from the script, not from what the body chose to poll.
+    if s.faulty && method == "GET" {
+        let ended_cleanly = o.steps.iter().find_map(|st| match &st.res {
+            PollObs::End => Some(true),
+            PollObs::Err(_) | PollObs::Panic(_) => Some(false),
+            _ => None,
+        });
+        if ended_cleanly == Some(true) {
+            for (ci, (a, b)) in o.calls.iter().enumerate() {
+                let want = (*b - *a) as u128;
+                let mut cum: u128 = 0;
+                let mut overlong = false;
+                if let Some(script) = s.scripts.get(ci) {
+                    for ev in script {
+                        match ev.kind {
+                            1 => {
+                                cum += ev.n as u128;
+                                if cum > want {
+                                    overlong = true;
+                                    break;
+                                }
+                            }
+                            2 | 3 => break,
+                            _ => {}
+                        }
+                    }
+                }
+                if overlong {
+                    v.add("C07", format!("entity stream for {a}..{b} offers more than its range, but the body ended cleanly instead of reporting an error"));
+                    break;
+                }
+            }
+        }
+    }
     v.0
 }
 
